@@ -79,6 +79,16 @@ def _gen(case, j):
         {"lo": [nx // 4 - 1, 1, 1], "hi": [3 * nx // 4 + 1, min(ny - 1, 4), min(nz - 1, 4)], "mat": m, "order": 5, "name": "straddle"}
     )
     tags["mats"] = "+".join(sorted(tags["mats"].split("+") + [cls]))
+    # every second scene: a conductive sphere (multi-material object, written with indexed adds) straddling the
+    # middle shard border inside a conductive background, so that 'set' and 'add' updates hit the same index
+    if f % 2 == 0 and scene["grid"]["kind"] == "uniform" and min(ny, nz) >= 8:
+        scene["volume"] = dict(scene.get("volume") or {"eps": 1.0})
+        scene["volume"]["sig_e"] = float(rng.uniform(1e3, 2e4))
+        scene["shapes"] = [
+            {"kind": "sphere", "radius_cells": 3, "lo": [nx // 2 - 3, 1, 1], "order": 9, "name": "lossy_sphere",
+             "materials": {"shell": {"eps": 1.0}, "core": {"eps": float(rng.uniform(2, 6)), "sig_e": float(rng.uniform(2e4, 9e4))}}, "material_name": "core"}
+        ]
+        tags["mats"] = "+".join(sorted(tags["mats"].split("+") + ["lossy-sphere-in-lossy-background"]))
     # a volume detector over the whole x range, spatial (every shard contributes) and reduced
     scene["detectors"].append({"kind": "field", "lo": [0, 2, 2], "hi": [nx, 4, 4], "name": "span_field"})
     scene["detectors"].append({"kind": "energy", "lo": [0, 0, 0], "hi": [nx, ny, nz], "reduce": True, "name": "span_energy"})
